@@ -15,8 +15,6 @@ Variable H : N -> N -> N -> bool -> list N -> list N.
 Variable L : nat.
 Hypothesis Lpos : 0 < L.
 Hypothesis H_len : forall l o d b x, length (H l o d b x) = KS.
-Hypothesis H_inj : forall l o d b x o' d' b' x',
-  H l o d b x = H l o' d' b' x' -> o = o' /\ d = d' /\ b = b' /\ x = x'.
 
 Lemma firstn_skipn_app_enough : forall (m o : nat) (d t : list N),
   length (firstn m (skipn o d)) = m -> firstn m (skipn o (d ++ t)) = firstn m (skipn o d).
@@ -29,20 +27,30 @@ Proof.
 Qed.
 
 (* the loop, from leaf index i with honest remaining leaves lt *)
-Lemma read_at_loop_sound : forall lt s n i offset want acc r,
+Lemma skipn_eq_cons : forall (lv : list (list N)) i d lt,
+  skipn i lv = d :: lt -> nth_error lv i = Some d /\ skipn (S i) lv = lt.
+Proof.
+  induction lv as [|x lv IH]; intros i d lt E; [destruct i; discriminate|].
+  destruct i; cbn in *; [inversion E; auto|]. now apply IH.
+Qed.
+
+Lemma read_at_loop_sound : forall lv, nocoll H L lv -> forall lt s n i offset want acc r,
+  lt = skipn i lv ->
   shape L lt -> n = i + length lt -> (lt = [] \/ offset <= L) ->
   (offset <= L) ->
   read_at_loop H L s n (keys_of_leaves H L i lt) i offset want acc = Ok r ->
   r = acc ++ firstn (want - length acc) (skipn offset (concat lt)).
 Proof.
-  induction lt as [|d lt IH]; intros s n i offset want acc r Hs Hn _ Ho Hr.
+  intros lv Hnc.
+  induction lt as [|d lt IH]; intros s n i offset want acc r Hlt Hs Hn _ Ho Hr.
   - cbn in Hr. inversion Hr; subst. cbn. rewrite skipn_nil, firstn_nil. now rewrite app_nil_r.
   - rewrite keys_of_leaves_cons in Hr. cbn [read_at_loop] in Hr.
     destruct (shape_tail L Lpos d lt Hs) as [Hs' [Hd Hfull]].
     destruct (lookup (hkey H L i d) s) as [d'|] eqn:El; [|discriminate].
     destruct (verify_leaf H L n i (hkey H L i d) d') eqn:Ev; cbn [negb] in Hr; [|discriminate].
+    destruct (skipn_eq_cons lv i d lt (eq_sym Hlt)) as [Hnth Hlt'].
     assert (d' = d).
-    { apply (verify_honest H L H_inj n i d d'); [|exact Ev]. intros Hne. destruct lt as [|x lt']; [cbn in Hn; lia|].
+    { apply (verify_honest H L lv n i d d' Hnc Hnth); [|exact Ev]. intros Hne. destruct lt as [|x lt']; [cbn in Hn; lia|].
       exfalso. apply Hne, Hfull. discriminate. }
     subst d'. cbn [concat].
     destruct (Nat.eqb_spec (length (acc ++ firstn (want - length acc) (skipn offset d))) want) as [E|E].
@@ -96,12 +104,12 @@ Proof.
     + rewrite IH. f_equal. lia.
 Qed.
 
-Theorem read_at_sound : forall s c off want r,
+Theorem read_at_sound : forall s c off want r, nocoll H L (split_leaves L c) ->
   read_at H L (tree_key H L c) s off want = Ok r -> r = firstn want (skipn off c).
 Proof.
-  intros s c off want r Hr. unfold read_at in Hr.
+  intros s c off want r Hnc Hr. unfold read_at in Hr.
   destruct (leaves_for_hash H L (tree_key H L c) s) as [ks|] eqn:El; [|discriminate].
-  apply (leaves_for_hash_sound H L Lpos H_len H_inj) in El. subst ks.
+  apply (leaves_for_hash_sound H L Lpos H_len) in El; [|exact Hnc]. subst ks.
   set (lv := split_leaves L c) in *.
   assert (Hc : concat lv = c) by (apply split_leaves_concat; auto).
   assert (Hsh : shape L lv) by (apply split_shape; auto).
@@ -120,7 +128,7 @@ Proof.
     now rewrite skipn_all2, firstn_nil by lia.
   - rewrite keys_of_leaves_skipn in Hr. cbn [Nat.add] in Hr.
     destruct (shape_firstn_full lv (off / L) Hsh Hlt) as [Ffull Hsk].
-    apply read_at_loop_sound in Hr; auto; try lia.
+    apply (read_at_loop_sound lv Hnc) in Hr; auto; try lia.
     + rewrite Hr. cbn [app length]. rewrite Nat.sub_0_r. f_equal.
       rewrite <- Hc. rewrite <- (firstn_skipn (off / L) lv) at 2. rewrite concat_app.
       rewrite skipn_app. rewrite concat_full_length by auto.
